@@ -207,7 +207,7 @@ def xmpStop (s : St) : St := if s.playing = false then s else { s with pos := -2
 
 /-- `xmp_restart_module`. -/
 def xmpRestart (s : St) : St :=
-  if s.playing = false then s else { s with loopCount := 0, pos := -1 }
+  if s.playing = false then s else { s with loopCount := 0, pos := -1, f := resetFlow s.f }
 
 /-- The `for (i = len-1; i >= 0; i--)` search of `xmp_seek_time`; `seekFind m q t n` looks at
 orders `n-1, …, 0`. -/
